@@ -41,8 +41,18 @@ def cntOfS (s : St) (cid : Nat) : Nat :=
   | none => cntOf s.cks cid
 
 /-- `cindex.syncChunks` as far as a reader can observe it: chunks of the journal the index does not know are added
-with the hull `lightFill` reads from their first and last record (no tree). -/
+with the hull `lightFill` reads from their first and last record (no tree); since fix a2ca477 entries that are older than
+their chunk are dropped first. -/
 def syncChunks (s : St) : St :=
+  -- fix a2ca477 (`dropStale`): an entry whose chunk holds more confirmed records than it accounts for is forgotten
+  -- together with its tree; the chunk then takes the path of an unknown chunk
+  let s :=
+    if Generated.C02.syncChunksDropsStaleEntries then
+      { s with cidx := { s.cidx with chunks := s.cidx.chunks.filter (fun c =>
+          match s.cks.find? (fun k => k.id / 10 == c.id) with
+          | some k => !(k.cnt > c.recs)
+          | none => true) } }
+    else s
   let unknown := (List.range s.cks.size).filter (fun i => (CIndex.findChk s.cidx ((s.cks[i]!).id / 10)).isNone)
   if unknown.isEmpty then s else
   let add (cs : List CIndex.Chk) (i : Nat) : List CIndex.Chk :=
@@ -54,7 +64,7 @@ def syncChunks (s : St) : St :=
         let a := ts[0]!
         let b := ts[c.cnt - 1]!
         (min a b, max a b)
-    let nc : CIndex.Chk := { id := c.id / 10, minTs := mn, maxTs := mx }
+    let nc : CIndex.Chk := { id := c.id / 10, minTs := mn, maxTs := mx, recs := c.cnt }
     (cs.filter (·.id < nc.id)) ++ [nc] ++ (cs.filter (·.id > nc.id))
   { s with cidx := { s.cidx with chunks := unknown.foldl add s.cidx.chunks } }
 
